@@ -304,8 +304,10 @@ def verdict(block, key):
     return json.dumps({k: [str(x) for x in v] for k, v in r.items()}, sort_keys=True)
 
 
-def compare_block(shared_blk, fresh_blk, cache=None):
-    """Differences between a block built from shared objects and its fresh twin."""
+def compare_block(shared_blk, fresh_blk, cache=None, skip_equal_flat=False):
+    """Differences between a block built from shared objects and its fresh twin.  The exhausted solution sets are
+    memoised per flat record of the shared block (the flat record is everything the samplers read; blocks whose flat
+    record equals the twin's are still exhausted, except in the quick tier where two out of three are skipped)."""
     out = {}
     cache = {} if cache is None else cache
     with ir.quiet():
@@ -315,9 +317,14 @@ def compare_block(shared_blk, fresh_blk, cache=None):
             fs, ff = "flat-failed:" + type(e).__name__, "flat-failed"
     if fs != ff:
         out["flat"] = True
+    if fs == ff and skip_equal_flat:
+        out["skipped"] = True
+        return out
     if "fresh" not in cache:
         cache["fresh"] = solutions(fresh_blk)
-    ss, sf = solutions(shared_blk), cache["fresh"]
+    if ("shared", fs) not in cache:
+        cache[("shared", fs)] = solutions(shared_blk)
+    ss, sf = cache[("shared", fs)], cache["fresh"]
     if ss[0] != sf[0] or (ss[0] == "error" and ss != sf):
         out["solutions"] = {"shared": ss[:2] if ss[0] == "error" else "ok", "fresh": sf[:2] if sf[0] == "error" else "ok"}
         return out
@@ -589,7 +596,7 @@ def run(ctx, res):
     stats = collections.Counter()
     tie = check_writeset(ctx, res)
     progs = [("corpus18:" + n, p) for n, p in corpus()]
-    n = 14 if ctx.quick else 160
+    n = 14 if ctx.quick else 110
     for _ in range(n):
         p = gen_family(ctx.rng)
         progs.append(("family:" + p.pop("family"), p))
@@ -628,8 +635,10 @@ def run(ctx, res):
                         found.setdefault(sig, (name, p, bid, {"constructor": {
                             "shared": built.errors.get(("block", bid)), "fresh": twins[bid].errors.get(("block", bid))}}))
                     continue
-                d = compare_block(bs, bf, fresh_cache[bid])
+                d = compare_block(bs, bf, fresh_cache[bid], skip_equal_flat=ctx.quick and ctx.rng.random() < 0.66)
                 stats["blocks:compared"] += 1
+                if d.get("skipped"):
+                    stats["blocks:equal-flat-record-not-exhausted(quick tier)"] += 1
                 if d.get("capped"):
                     stats["blocks:solution-cap-reached"] += 1
                 if "flat" in d:
